@@ -252,7 +252,7 @@ def body(chk):
         chk.rng.shuffle(idx)
         core = [i for i, (l, _) in enumerate(cases(chk)) if l.startswith(('members', 'contracts', 'free function', 'unnamed legacy', 'vars attributed')) or 'attribute order' in l
                 or (l.startswith('var named') and ('private' in l or 'internal' in l)) or (l.startswith('fn named') and ('private' in l or 'internal' in l))]
-        idx = sorted(set(core) | set(idx[:260]))
+        idx = sorted(set(core) | set(idx[:260])) if n > 2500 else sorted(idx)        # the whole family is cheap enough for the quick tier
     chk.bounds = {'files': '%d of %d declaration shapes x 5 detectors' % (len(idx), n),
                   'shapes': 'function kind x visibility x payable x body x underscore x contract kind; variable type x visibility x constant/immutable x underscore; '
                             'member sequences up to length 3 (+ selected longer) over function/modifier/constructor/receive/variable in 1-3 contracts and with free functions',
